@@ -4,7 +4,7 @@ use crate::{
         general::{CountdownType, GameMode, General, GeneralState, ParseGeneralError},
         hit_objects::hit_samples::{ParseSampleBankError, SampleBank},
     },
-    util::{ParseNumber, ParseNumberError, StrExt, MAX_PARSE_VALUE},
+    util::{cmp_time, ParseNumber, ParseNumberError, StrExt, MAX_PARSE_VALUE},
     Beatmap,
 };
 
@@ -97,7 +97,7 @@ impl ControlPoints {
     /// Finds the [`DifficultyPoint`] that is active at the given time.
     pub fn difficulty_point_at(&self, time: f64) -> Option<&DifficultyPoint> {
         self.difficulty_points
-            .binary_search_by(|probe| probe.time.total_cmp(&time))
+            .binary_search_by(|probe| cmp_time(probe.time, time))
             .map_or_else(|i| i.checked_sub(1), Some)
             .map(|i| &self.difficulty_points[i])
     }
@@ -105,7 +105,7 @@ impl ControlPoints {
     /// Finds the [`EffectPoint`] that is active at the given time.
     pub fn effect_point_at(&self, time: f64) -> Option<&EffectPoint> {
         self.effect_points
-            .binary_search_by(|probe| probe.time.total_cmp(&time))
+            .binary_search_by(|probe| cmp_time(probe.time, time))
             .map_or_else(|i| i.checked_sub(1), Some)
             .map(|i| &self.effect_points[i])
     }
@@ -114,7 +114,7 @@ impl ControlPoints {
     pub fn sample_point_at(&self, time: f64) -> Option<&SamplePoint> {
         let i = self
             .sample_points
-            .binary_search_by(|probe| probe.time.total_cmp(&time))
+            .binary_search_by(|probe| cmp_time(probe.time, time))
             .unwrap_or_else(|i| i.saturating_sub(1));
 
         self.sample_points.get(i)
@@ -124,7 +124,7 @@ impl ControlPoints {
     pub fn timing_point_at(&self, time: f64) -> Option<&TimingPoint> {
         let i = self
             .timing_points
-            .binary_search_by(|probe| probe.time.total_cmp(&time))
+            .binary_search_by(|probe| cmp_time(probe.time, time))
             .unwrap_or_else(|i| i.saturating_sub(1));
 
         self.timing_points.get(i)
@@ -157,7 +157,7 @@ impl ControlPoint<ControlPoints> for TimingPoint {
     fn add(self, control_points: &mut ControlPoints) {
         match control_points
             .timing_points
-            .binary_search_by(|probe| probe.time.total_cmp(&self.time))
+            .binary_search_by(|probe| cmp_time(probe.time, self.time))
         {
             Err(i) => control_points.timing_points.insert(i, self),
             Ok(i) => control_points.timing_points[i] = self,
@@ -176,7 +176,7 @@ impl ControlPoint<ControlPoints> for DifficultyPoint {
     fn add(self, control_points: &mut ControlPoints) {
         match control_points
             .difficulty_points
-            .binary_search_by(|probe| probe.time.total_cmp(&self.time))
+            .binary_search_by(|probe| cmp_time(probe.time, self.time))
         {
             Err(i) => control_points.difficulty_points.insert(i, self),
             Ok(i) => control_points.difficulty_points[i] = self,
@@ -195,7 +195,7 @@ impl ControlPoint<ControlPoints> for EffectPoint {
     fn add(self, control_points: &mut ControlPoints) {
         match control_points
             .effect_points
-            .binary_search_by(|probe| probe.time.total_cmp(&self.time))
+            .binary_search_by(|probe| cmp_time(probe.time, self.time))
         {
             Err(i) => control_points.effect_points.insert(i, self),
             Ok(i) => control_points.effect_points[i] = self,
@@ -207,7 +207,7 @@ impl ControlPoint<ControlPoints> for SamplePoint {
     fn check_already_existing(&self, control_points: &ControlPoints) -> bool {
         control_points
             .sample_points
-            .binary_search_by(|probe| probe.time.total_cmp(&self.time))
+            .binary_search_by(|probe| cmp_time(probe.time, self.time))
             .map_or_else(|i| i.checked_sub(1), Some)
             .map_or(false, |i| {
                 self.is_redundant(&control_points.sample_points[i])
@@ -217,7 +217,7 @@ impl ControlPoint<ControlPoints> for SamplePoint {
     fn add(self, control_points: &mut ControlPoints) {
         match control_points
             .sample_points
-            .binary_search_by(|probe| probe.time.total_cmp(&self.time))
+            .binary_search_by(|probe| cmp_time(probe.time, self.time))
         {
             Err(i) => control_points.sample_points.insert(i, self),
             Ok(i) => control_points.sample_points[i] = self,
